@@ -206,10 +206,16 @@ fn gen_table(rng: &mut Rng, tier: Tier) -> (bool, u64, Vec<u32>, Vec<u32>) {
     let avg_step = if n == 0 { 1 } else { (text_len / n as u64).max(1) };
     let step_style = rng.below(5);
     let mut pos: u64 = if rng.chance(1, 2) { 0 } else { rng.below(text_len + 1).min(text_len / 4 + 1) };
+    // Duplicates right at a select-sample boundary (the 255th/256th/257th distinct position)
+    // and positions at bit 63 / bit 0 of a word are where sampled-select shortcuts go wrong.
+    let boundary_dups = rng.chance(1, 3);
+    let mut distinct: u64 = 1;
     for i in 0..n {
         if i > 0 {
-            let dup = dup_w > 0 && rng.below(dup_w + 2) < dup_w;
+            let near_sample = boundary_dups && matches!(distinct % 256, 255 | 0 | 1);
+            let dup = (dup_w > 0 && rng.below(dup_w + 2) < dup_w) || (near_sample && rng.chance(2, 3));
             if !dup {
+                distinct += 1;
                 let step = match step_style {
                     0 => 1,
                     1 => rng.range(1, 3),
@@ -255,6 +261,7 @@ fn gen_table(rng: &mut Rng, tier: Tier) -> (bool, u64, Vec<u32>, Vec<u32>) {
     let zero_w = *rng.pick(&[1u64, 2, 5, 9]); // out of 10: probability of "container"
     let leading_zeros = if rng.chance(1, 3) { rng.urange(0, 6.min(n)) } else { 0 };
     let starts_monotone = starts.windows(2).all(|w| w[0] <= w[1]);
+    let mut distinct_ends: u64 = 0;
     if parser_like && starts_monotone {
         let mut prev_nz: u64 = 0;
         for i in 0..n {
@@ -267,11 +274,19 @@ fn gen_table(rng: &mut Rng, tier: Tier) -> (bool, u64, Vec<u32>, Vec<u32>) {
             if lo > hi {
                 continue;
             }
-            let e = match rng.below(4) {
-                0 => hi,
-                1 => lo,
-                _ => rng.range(lo, hi),
+            let near_sample = boundary_dups && matches!(distinct_ends % 256, 255 | 0 | 1);
+            let e = if near_sample && prev_nz > 0 && prev_nz <= hi && rng.chance(2, 3) {
+                prev_nz // repeat the previous end exactly at a sample boundary
+            } else {
+                match rng.below(4) {
+                    0 => hi,
+                    1 => lo,
+                    _ => rng.range(lo, hi),
+                }
             };
+            if e != prev_nz {
+                distinct_ends += 1;
+            }
             ends[i] = e as u32;
             prev_nz = e;
         }
@@ -290,11 +305,20 @@ fn gen_table(rng: &mut Rng, tier: Tier) -> (bool, u64, Vec<u32>, Vec<u32>) {
                 if lo > text_len {
                     continue;
                 }
-                match rng.below(5) {
-                    0 => lo,
-                    1 => text_len,
-                    _ => rng.range(lo, (lo + avg_step * 3).min(text_len)),
+                let near_sample = boundary_dups && matches!(distinct_ends % 256, 255 | 0 | 1);
+                let v = if near_sample && prev_nz > 0 && rng.chance(2, 3) {
+                    prev_nz
+                } else {
+                    match rng.below(5) {
+                        0 => lo,
+                        1 => text_len,
+                        _ => rng.range(lo, (lo + avg_step * 3).min(text_len)),
+                    }
+                };
+                if v != prev_nz {
+                    distinct_ends += 1;
                 }
+                v
             } else {
                 rng.range(1, text_len)
             };
